@@ -12,6 +12,8 @@ type SimTimer struct {
 	period int64           // > 0: ticker
 	f      func()          // AfterFunc: runs as a new task
 	onFire func(now int64) // channel timers: a non-blocking send of the fire time
+	wakeT  *Task           // Sleep: the sleeping task
+	fired  bool
 	active bool
 	seq    int
 }
@@ -111,6 +113,9 @@ func (s *Sim) fireDue() {
 			go nt.main(s)
 		} else if t.onFire != nil {
 			t.onFire(simClock)
+		} else if t.wakeT != nil {
+			t.fired = true
+			wake(t.wakeT)
 		}
 	}
 }
